@@ -29,6 +29,7 @@ static uint64_t live_bytes;
 static int countdown;           /* 0 = disarmed; fails when it reaches 0 */
 static unsigned eligible_seen, failed_count;
 static bool sticky;
+static int suspended;
 
 /* ---- symbol table of the running binary: return address -> function */
 struct fsym { uintptr_t start, end; const char *name; bool eligible; };
@@ -202,6 +203,7 @@ void sim_alloc_reset(void)
     countdown = 0;
     eligible_seen = failed_count = 0;
     sticky = false;
+    suspended = 0;
 }
 
 unsigned sim_alloc_live(void) { return nlive; }
@@ -222,9 +224,12 @@ void sim_alloc_describe_live(char *buf, size_t len)
                                   live[i].size);
 }
 
+void sim_alloc_suspend(void) { suspended++; }
+void sim_alloc_resume(void) { suspended--; }
+
 static bool should_fail(void *ret_addr)
 {
-    if (countdown <= 0 && !sticky)
+    if (suspended || (countdown <= 0 && !sticky))
         return false;
     if (!caller_eligible(ret_addr))
         return false;
@@ -245,7 +250,7 @@ fail:
 
 bool sim_alloc_fault_point(const char *what)
 {
-    if (countdown <= 0 && !sticky)
+    if (suspended || (countdown <= 0 && !sticky))
         return false;
     eligible_seen++;
     if (!(sticky && countdown <= 0) && --countdown > 0)
